@@ -97,7 +97,11 @@ pub fn j_range(form: usize, y: i32, m: u32, d: u32, h: u32, mi: u32, s: u32, out
     // listed-invalid: month 0 / > 12, day 0 / beyond the month, hour > 24, minute > 59, second > 60
     // hour 24 is only ever meaningful as 24:00:00 (end of day, ISO 8601): with non-zero minutes or seconds it is out
     // of range in every convention and would silently become a time on the next day; 24:00:00 itself is a don't-care
-    let invalid = m == 0 || m > 12 || d == 0 || d as i64 > month_len(y as i64, m as i64) || h > 24 || (h == 24 && (mi > 0 || s > 0)) || mi > 59 || s > 60;
+    // second 60 is in range only at 23:59 on a day on which a leap second was inserted (C08's rule; 1971-12-31 is silent)
+    static LEAP_DAYS: std::sync::OnceLock<Vec<i64>> = std::sync::OnceLock::new();
+    let leap_days = LEAP_DAYS.get_or_init(|| crate::oracle::leap::LeapTable::load().expect("leap").0.leap_days());
+    let s60_out = s == 60 && m >= 1 && m <= 12 && d >= 1 && d <= 31 && h <= 23 && mi <= 59 && super::c08::classify(y, m as u8, d as u8, h as u8, mi as u8, 60, 0, leap_days) == Some(false);
+    let invalid = m == 0 || m > 12 || d == 0 || d as i64 > month_len(y as i64, m as i64) || h > 24 || (h == 24 && (mi > 0 || s > 0)) || mi > 59 || s > 60 || s60_out;
     let valid = !invalid && h < 24 && s < 60;
     let feb30 = m == 2 && crate::oracle::civil::is_leap(y as i64) && (d == 30 || d == 31) && h <= 24 && mi <= 59 && s <= 60;
     let r = guard(|| {
@@ -109,7 +113,7 @@ pub fn j_range(form: usize, y: i32, m: u32, d: u32, h: u32, mi: u32, s: u32, out
     match r {
         Ok((a, b, c)) => {
             if invalid && (a || b || c) {
-                let which = if feb30 { "feb-30-or-31-in-leap-year" } else if m == 0 || m > 12 { "month" } else if d == 0 || d as i64 > month_len(y as i64, m as i64) { "day" } else if h >= 24 { "hour" } else if mi > 59 { "minute" } else { "second" };
+                let which = if feb30 { "feb-30-or-31-in-leap-year" } else if m == 0 || m > 12 { "month" } else if d == 0 || d as i64 > month_len(y as i64, m as i64) { "day" } else if h >= 24 { "hour" } else if mi > 59 { "minute" } else if s == 60 { "second-60-outside-a-leap-second" } else { "second" };
                 out.viol("c13.range", format!("out-of-range-accepted,{which}"), args, format!("Err for {text:?}"), format!("from_str={a} from_gregorian_str={b} from_format_str={c}"));
             } else if valid && !(a && b && c) {
                 out.viol("c13.range", "valid-rejected".into(), args, format!("Ok for {text:?}"), format!("from_str={a} from_gregorian_str={b} from_format_str={c}"));
@@ -583,7 +587,8 @@ pub fn run(rep: &mut Report) {
         }
     });
     // out-of-range fields
-    let years = [1i32, 1900, 2000, 2023, 2024, 9999];
+    // (2016, 2015, 1972: years with a leap second at the end of December / June / both)
+    let years = [1i32, 1900, 1972, 2000, 2015, 2016, 2023, 2024, 9999];
     let months = [0u32, 1, 2, 4, 6, 12, 13, 99];
     let days = [0u32, 1, 28, 29, 30, 31, 32, 99];
     let hours = [0u32, 23, 24, 25, 99];
